@@ -28,11 +28,55 @@ def is_super(algo):
     return algo in SUPER
 
 
+class PolyOracle:
+    """Oracle for inputs with polytomies: solutions are recounted on the (binary) trees they refer to, which must be
+    refinements of the input trees; forms are the union over all refinement pairs produced by the SAT clade models."""
+
+    def __init__(self, case, algo):
+        self.case = case
+        self.algo = algo
+        self._forms = None
+        self.recs = []
+
+    def forms(self):
+        if self._forms is None:
+            from engine.oracles import clades as CL
+            forms = set()
+            for ot in CL.refinements(self.case.ot):
+                for st in CL.refinements(self.case.st):
+                    d = dict(self.case.desc)
+                    d["ot"], d["st"] = ot, st
+                    sub = D.Oracle(H.Case(d), restrict_lca=self.algo in BASE)
+                    forms.update(sub.labelled_forms(D.ORDERED[self.algo]) if is_super(self.algo) else sub.plain_forms())
+            self._forms = sorted(forms)
+        return self._forms
+
+    def recount(self, out, ordered=None):
+        from engine.oracles import clades as CL
+        c = D.case_from_output(out, self.case)
+        for which, orig, got in (("object", self.case.ot, c.ot), ("species", self.case.st, c.st)):
+            if not D.is_binary_tuple(got):
+                return None, f"the solution's {which} tree is not binary"
+            if sorted(CL._leaves(orig)) != sorted(CL._leaves(got)):
+                return None, f"the solution's {which} tree has different leaves"
+            if not CL.clades_of_tuple(orig) <= CL.clades_of_tuple(got):
+                return None, f"the solution's {which} tree lost a clade of the input"
+        return D.recount_case(c, out, ordered)
+
+
+def is_poly(case):
+    return not (D.is_binary_tuple(case.ot) and D.is_binary_tuple(case.st))
+
+
 def oracle_for(case, algo):
+    if is_poly(case):
+        return PolyOracle(case, algo)
     return D.Oracle(case, restrict_lca=algo in BASE)
 
 
-def oracle_forms(orc, algo):
+def oracle_forms(orc, algo, needed=True):
+    if isinstance(orc, PolyOracle):
+        return orc.forms() if needed else None
     if is_super(algo):
         return orc.labelled_forms(D.ORDERED[algo])
     return orc.plain_forms()
@@ -82,13 +126,17 @@ def all_solutions(case, orc, algo, cap=200000):
 def concrete_failures(desc, algo, policy, costs, flags):
     case = H.Case(desc)
     orc = oracle_for(case, algo)
-    forms = oracle_forms(orc, algo)
+    need = bool({"opt", "empty"} & set(flags))
+    forms = oracle_forms(orc, algo, need)
     inp = case.build(costs)
     try:
         res = D.run_algo(algo, inp, policy)
     except Exception as e:
         return [("exception", f"{type(e).__name__}: {e}")]
     fails = []
+    if forms is None:
+        forms = []
+        flags = set(flags) - {"opt", "empty"}
     finite = [H.form_value(costs, f) for f in forms]
     finite = [v for v in finite if v is not inf]
     if not res:
@@ -163,7 +211,11 @@ def explore(prop, desc, algo, policy, sym, fixed, flags, max_paths=20000, budget
     """
     case = H.Case(desc)
     orc = oracle_for(case, algo)
-    forms = oracle_forms(orc, algo)
+    flags = set(flags)
+    forms = oracle_forms(orc, algo, bool({"opt", "empty"} & flags))
+    if forms is None:
+        forms = []
+        flags -= {"opt", "empty"}
     sup = is_super(algo)
     ordered = D.ORDERED[algo] if sup else None
     ctx, costs = H.cost_ctx(sym, fixed=fixed, coherent=coherent, with_sloss=sup, max_paths=max_paths, budget_s=budget_s)
@@ -220,7 +272,7 @@ def explore(prop, desc, algo, policy, sym, fixed, flags, max_paths=20000, budget
         good = [c for c in counts if c is not None]
         if not good:
             continue
-        anyfinite = any(H.form_z(ctx, costs, f) is not None for f in forms)
+        anyfinite = any(H.form_z(ctx, costs, f) is not None for f in forms) or (isinstance(orc, PolyOracle) and costs["hgt"] is not inf)
         for cnt in sorted(set(good)):
             finite_L = H.form_z(ctx, costs, cnt) is not None
             if "valid" in flags:
@@ -301,7 +353,8 @@ def generic_worker(item):
     try:
         for run in item["runs"]:
             r = explore(item["prop"], item["desc"], run["algo"], run["policy"], run["sym"], H.cost_unjson(run.get("fixed", {})),
-                        set(run["flags"]), item.get("max_paths", 20000), item.get("budget_s", 600.0))
+                        set(run["flags"]), item.get("max_paths", 20000), item.get("budget_s", 600.0),
+                        coherent=run.get("coherent", True))
             merge(tot, r)
     except Inconclusive as e:
         tot["status"] = "inconclusive"
@@ -353,7 +406,7 @@ FULL4 = ["spe", "dup", "floss", "sloss"]
 DHS = ["dup", "hgt", "sloss"]
 
 
-def runs_for(algos, policies, flags, sym="full", inf_too=True):
+def runs_for(algos, policies, flags, sym="full", inf_too=True, coherent=True):
     out = []
     for algo in algos:
         sup = is_super(algo)
@@ -368,7 +421,44 @@ def runs_for(algos, policies, flags, sym="full", inf_too=True):
                 s1 = DHS if sup else ["dup", "hgt"]
                 s2 = ["dup", "sloss"] if sup else ["dup"]
                 f1, f2 = {"spe": 0, "floss": 1}, {"spe": 0, "floss": 1, "hgt": "inf"}
-            out.append({"algo": algo, "policy": pol, "sym": s1, "fixed": f1, "flags": sorted(flags)})
+            out.append({"algo": algo, "policy": pol, "sym": s1, "fixed": f1, "flags": sorted(flags), "coherent": coherent})
             if inf_too:
-                out.append({"algo": algo, "policy": pol, "sym": s2, "fixed": f2, "flags": sorted(flags)})
+                out.append({"algo": algo, "policy": pol, "sym": s2, "fixed": f2, "flags": sorted(flags), "coherent": coherent})
     return out
+
+
+def random_poly_tuple(rng, leaves, max_arity=3, npoly=1):
+    """Random plane tree with `npoly` nodes of arity 3..max_arity (others binary)."""
+    from engine.oracles.trees import random_plane_tree
+    leaves = list(leaves)
+    for _ in range(200):
+        t = random_plane_tree(rng, leaves)
+        # contract random internal edges to create polytomies
+        def contract(x, budget):
+            if isinstance(x, str):
+                return x
+            kids = [contract(c, budget) for c in x]
+            out = []
+            for k in kids:
+                if not isinstance(k, str) and budget[0] > 0 and len(out) + len(k) + (len(kids) - len(out) - 1) <= max_arity and rng.random() < 0.6:
+                    out.extend(k)
+                    budget[0] -= 1
+                else:
+                    out.append(k)
+            return tuple(out)
+        b = [npoly]
+        r = contract(t, b)
+        if b[0] < npoly and not D.is_binary_tuple(r):
+            return r
+    return tuple(leaves[:3]) if len(leaves) == 3 else (tuple(leaves[:3]),) + tuple(leaves[3:])
+
+
+def random_poly_input(rng, no, ns, nf, ordered, poly_object=True, poly_species=False, max_arity=3):
+    d = random_super_input(rng, no, ns, nf, ordered)
+    ol = sorted(d["leafmap"])
+    sl = [D.SP_NAMES[i] for i in range(ns)]
+    if poly_object and no >= 3:
+        d["ot"] = random_poly_tuple(rng, ol, max_arity)
+    if poly_species and ns >= 3:
+        d["st"] = random_poly_tuple(rng, sl, max_arity)
+    return d
